@@ -482,7 +482,7 @@ Section SessInv.
 
   Theorem step_sess_inv w ev w' o : WP w -> step w ev = Ok (w', o) -> WP w'.
   Proof.
-    intros HW. destruct ev as [peer seq m e|peer seq m e|seid items e|peer seq|peer seq|seid items e]; cbn [step].
+    intros HW. destruct ev as [peer seq m e|peer seq m e|seid items e|peer seq|peer seq|seid items e|peer seq m e|peer seq]; cbn [step].
     - destruct (is_request m); [apply recv_request_P | apply recv_response_P]; exact HW.
     - destruct (is_request m); [apply recv_request_abort_P; exact HW|].
       destruct (klookup (peer, seq) (w_tx w)); intros H; inversion H; subst; exact HW.
@@ -492,6 +492,14 @@ Section SessInv.
     - intros H. inversion H; subst. exact HW.
     - destruct (serve_report w seid items) as [[w1 o1]|f] eqn:Es; cbn [write_fails]; [|discriminate].
       intros H. inversion H; subst. eapply serve_report_P; eauto.
+    - destruct (is_request m).
+      + destruct (recv_request w peer seq m e) as [[w1 o1]|f] eqn:Es; cbn [write_fails]; [|discriminate].
+        intros H. inversion H; subst. eapply recv_request_P; eauto.
+      + destruct (recv_response w peer seq m e) as [[w1 o1]|f] eqn:Es; cbn [write_fails]; [|discriminate].
+        intros H. inversion H; subst. eapply recv_response_P; eauto.
+    - cbn [write_fails]. destruct (timeout_tx w peer seq) as [w1 o1] eqn:Es. intros H. inversion H; subst.
+      unfold timeout_tx in Es. destruct (klookup (peer, seq) (w_tx w)) as [t|]; [|inversion Es; subst; exact HW].
+      destruct (tx_count t <? w_maxretrans w); inversion Es; subst; exact HW.
   Qed.
 
   Theorem reachable_sess_inv w : reachable w -> forall lid s, live w lid s -> P s.
